@@ -12,11 +12,14 @@
 //!                         verdict: decode(encode src) = src     (model: the Gallina encoder, order 0)
 //!   r4d   order src enc-> hex(decode enc); enc is the REAL encoder's output computed at generation time;
 //!                         the model runs the INDEPENDENT (specification) decoder on the same bytes
-//!   nfe   flags src    -> hex(real rANS Nx16 stream) for every STRIPE-free flag byte whose emitted stream is CAT
-//!                         or ORDER-0 entropy coded (N = 4 | 32), "order1" when the order-1 coder was used;
-//!                         model: Nx16Full.nx_encode_e (transforms + order-0 coder); verdict: self round trip
-//!   nfd   flags usize stream expect -> hex(decode stream) | Err | Panic; model: Nx16Full.nx_decode_e (noodles'
-//!                         decoder incl. the order-0 entropy decoder and entropy-coded RLE meta-data)
+//!   nfe   flags src    -> hex(real rANS Nx16 stream) for EVERY flag byte (STRIPE, CAT, ORDER-0 or ORDER-1
+//!                         entropy coded, N = 4 | 32); model: Nx16Stripe.nx_encode_s; verdict: self round trip
+//!   nfd   flags usize stream expect -> hex(decode stream) | Err | Panic; model: Nx16Stripe.nx_decode_s (noodles'
+//!                         decoder incl. the order-0/1 entropy decoders, entropy-coded RLE meta-data and
+//!                         entropy-coded order-1 tables)
+//!   aae   flags src    -> hex(real adaptive-arithmetic-coder stream) for every flag byte without EXT,
+//!                         model: AacRle.aac_encode_r (range coder, adaptive models, order 0/1, RLE, PACK, CAT, STRIPE)
+//!   aad   flags usize stream expect -> hex(decode stream) | Err | Panic; model: AacRle.aac_decode_r
 //! Implementation-only oracles (obs "-"):
 //!   nx16 flags src | aac flags src | fqz lens src | names src | gz level src | bz2 level src | xz level src
 //!   big codec param shape len seed     (input built inside `run`; > 1 MiB inputs and the witnesses of
@@ -429,19 +432,104 @@ fn nfe_case(flags: u8, src: &[u8]) -> Obs {
         Outcome::Done(Err(e)) => return Obs::fail("Err", &format!("{what}-encode-error"), format!("Err:{} len={n}", errkind(&e))),
         Outcome::Panicked(m) => return Obs::fail("Panic", &format!("{what}-encode-panic"), format!("{m} len={n}")),
     };
-    let obs = if flags & 0x08 != 0 {
-        "stripe".to_string()
-    } else if enc.first().is_some_and(|b| b & 0x20 != 0 || b & 0x01 == 0) {
-        long_obs(&enc)
-    } else {
-        "order1".to_string()
-    };
+    let obs = long_obs(&enc);
     match guarded(AssertUnwindSafe(|| v::rans_nx16_decode(&enc, n))) {
         Outcome::Done(Ok(d)) if d == src => Obs::ok(obs, !src.is_empty()),
         Outcome::Done(Ok(d)) => Obs::fail(obs, &format!("{what}-decode-mismatch"), format!("len={n} decoded_len={}", d.len())),
         Outcome::Done(Err(e)) => Obs::fail(obs, &format!("{what}-decode-error"), format!("Err:{} len={n}", errkind(&e))),
         Outcome::Panicked(m) => Obs::fail(obs, &format!("{what}-decode-panic"), format!("{m} len={n}")),
     }
+}
+
+/// length of an uncompressed order-1 frequency table (alphabet + the rows of its contexts) at the
+/// start of `b`, following the layout of the format; used only to cut test streams
+fn o1_table_len(b: &[u8]) -> Option<usize> {
+    let mut alpha = [false; 256];
+    let mut p = 0usize;
+    let mut sym = *b.get(p)?;
+    p += 1;
+    let mut prev = sym;
+    loop {
+        alpha[sym as usize] = true;
+        sym = *b.get(p)?;
+        p += 1;
+        if sym == 0 {
+            break;
+        }
+        if sym - 1 == prev {
+            let len = *b.get(p)?;
+            p += 1;
+            for _ in 0..len {
+                alpha[sym as usize] = true;
+                sym = sym.checked_add(1)?;
+            }
+        }
+        prev = sym;
+    }
+    let n = alpha.iter().filter(|a| **a).count();
+    for _ in 0..n {
+        let mut j = 0;
+        while j < n {
+            let mut f = 0u32;
+            loop {
+                let x = *b.get(p)?;
+                p += 1;
+                f = (f << 7) | (x & 0x7f) as u32;
+                if x & 0x80 == 0 {
+                    break;
+                }
+            }
+            j += 1;
+            if f == 0 {
+                let k = *b.get(p)? as usize;
+                p += 1;
+                j += k;
+            }
+        }
+    }
+    Some(p)
+}
+
+/// offset of the data stage (CAT payload / entropy-coded body) of an Nx16 or AAC stream: after the
+/// flag byte, the size field, the PACK context and (Nx16 only) the RLE context; None for STRIPE
+/// or a malformed header.  Test streams are corrupted only from here on, so that every declared
+/// size stays what the encoder wrote.
+fn body_start(enc: &[u8], with_rle_ctx: bool) -> Option<usize> {
+    fn u7(b: &[u8], p: &mut usize) -> Option<u32> {
+        let mut n = 0u32;
+        loop {
+            let x = *b.get(*p)?;
+            *p += 1;
+            n = (n << 7) | (x & 0x7f) as u32;
+            if x & 0x80 == 0 {
+                return Some(n);
+            }
+        }
+    }
+    let f = *enc.first()?;
+    let mut p = 1usize;
+    if f & 0x08 != 0 {
+        return None;
+    }
+    if f & 0x10 == 0 {
+        u7(enc, &mut p)?;
+    }
+    if f & 0x80 != 0 {
+        let nsym = *enc.get(p)? as usize;
+        p += 1 + nsym;
+        u7(enc, &mut p)?;
+    }
+    if with_rle_ctx && f & 0x40 != 0 {
+        let n = u7(enc, &mut p)?;
+        u7(enc, &mut p)?;
+        if n & 1 == 1 {
+            p += (n >> 1) as usize;
+        } else {
+            let c = u7(enc, &mut p)?;
+            p += c as usize;
+        }
+    }
+    (p <= enc.len()).then_some(p)
 }
 
 /// nxd: the real decoder on a stream (the encoder's, or a truncation of it); `expect` = the
@@ -511,6 +599,39 @@ fn nxx_inputs(rng: &mut Rng, thorough: bool) -> Vec<Vec<u8>> {
         v.push((0..16_500usize).map(|i| if i % 2 == 0 { 4 } else { 5 + (rng.below(3) as u8) }).collect());
     }
     v
+}
+
+/// aae: the real AAC encoder's whole stream (flags within NO_SIZE | CAT | PACK: order 0)
+fn aae_case(flags: u8, src: &[u8]) -> Obs {
+    let f = aac::Flags::from(flags);
+    let n = src.len();
+    roundtrip(&format!("aac-f{flags:02x}"), src, || v::aac_encode(f, src), |e| v::aac_decode(e, n), true)
+}
+
+/// aad: the real AAC decoder on a stream (the encoder's, a truncation, a corruption)
+fn aad_case(c: &Case) -> Obs {
+    let flags = c.u(0) as u8;
+    let usize_ = c.u(1) as usize;
+    let stream = c.b(2);
+    let expect = if c.args[3] == "-" { None } else { Some(c.b(3)) };
+    match guarded(AssertUnwindSafe(|| v::aac_decode(&stream, usize_))) {
+        Outcome::Done(Ok(d)) => {
+            let obs = long_obs(&d);
+            match expect {
+                Some(e) if e != d => Obs::fail(obs, &format!("aac-f{flags:02x}-decode-mismatch"), format!("len={}", e.len())),
+                Some(e) => Obs::ok(obs, !e.is_empty()),
+                None => Obs::ok(obs, false),
+            }
+        }
+        Outcome::Done(Err(e)) => match expect {
+            Some(x) => Obs::fail("Err", &format!("aac-f{flags:02x}-decode-error"), format!("Err:{} len={}", errkind(&e), x.len())),
+            None => Obs::ok("Err", false),
+        },
+        Outcome::Panicked(m) => match expect {
+            Some(x) => Obs::fail("Panic", &format!("aac-f{flags:02x}-decode-panic"), format!("{m} len={}", x.len())),
+            None => Obs::ok("Panic", false),
+        },
+    }
 }
 
 fn aac_case(flags: u8, src: &[u8]) -> Obs {
@@ -941,8 +1062,8 @@ fn generate(rng: &mut Rng, tier: &str, w: &mut CaseWriter) {
     let per_flag = if thorough { 10 } else { 2 };
     let fixed_small: Vec<Vec<u8>> = vec![vec![], vec![1], vec![1, 2], vec![3, 3, 3], vec![1, 2, 3, 4], (0..33u8).collect()];
     for (fi, &f) in nx_flags.iter().enumerate() {
-        // STRIPE-free flag bytes are compared with the model (nfe), the others only round trip
-        let kind = if f & 0x08 == 0 { "nfe" } else { "nx16" };
+        // every flag byte is compared with the model (nfe)
+        let kind = "nfe";
         let s = &fixed_small[fi % fixed_small.len()];
         w.push(kind, vec![f.to_string(), hex(s)]);
         for _ in 0..per_flag {
@@ -1031,19 +1152,20 @@ fn generate(rng: &mut Rng, tier: &str, w: &mut CaseWriter) {
         // the witnesses of the repaired normalisation (scaled sum above / below 4096)
         inputs.push(shaped(rng, "zmaxnx16", 0));
         inputs.push(shaped(rng, "nx16under", 0));
-        let flagsets = all_subsets(&[0x01, 0x04, 0x10, 0x20, 0x40, 0x80]);
+        let mut flagsets = all_subsets(&[0x01, 0x04, 0x10, 0x20, 0x40, 0x80]);
+        // STRIPE: the other flags are ignored except NO_SIZE
+        flagsets.extend([0x08u8, 0x18, 0x09, 0x0c, 0xc8, 0x28, 0x1d]);
         for (fi, &f) in flagsets.iter().enumerate() {
             for (ii, src) in inputs.iter().enumerate() {
                 let small = src.len() <= 600;
-                // requested ORDER-0 without CAT: most inputs; the others: a rotating sixth
-                let keep = if f & 0x21 == 0 { thorough || small || (ii + fi) % 3 == 0 } else { (ii + fi) % 6 == 0 && (small || thorough) };
+                // without CAT (order 0 and order 1): most inputs; with CAT: a rotating sixth
+                let keep = if f & 0x20 == 0 { thorough || small || (ii + fi) % 3 == 0 } else { (ii + fi) % 6 == 0 && (small || thorough) };
                 if !keep {
                     continue;
                 }
                 w.push("nfe", vec![f.to_string(), hex(src)]);
                 let Outcome::Done(Ok(enc)) = guarded(AssertUnwindSafe(|| v::rans_nx16_encode(rans_nx16::Flags::from(f), src))) else { continue };
-                let modelled = enc.first().is_some_and(|b| b & 0x20 != 0 || b & 0x01 == 0);
-                if !modelled || !small {
+                if !small {
                     continue;
                 }
                 let n = src.len().to_string();
@@ -1058,20 +1180,27 @@ fn generate(rng: &mut Rng, tier: &str, w: &mut CaseWriter) {
                     more.extend(rng.bytes(extra));
                     w.push("nfd", vec![f.to_string(), n.clone(), hex(&more), "-".into()]);
                 }
-                // corrupted streams: never the flag byte or a size field (the declared sizes stay
-                // small); without PACK/RLE everything after the size is alphabet / frequencies /
-                // states / payload, with them only the tail is touched
-                let start = if f & 0xc0 == 0 { 1 + if f & 0x10 == 0 { u7_size(src.len() as u32) } else { 0 } } else { enc.len().saturating_sub(10).max(enc.len() / 2 + 1) };
+                // corrupted streams: never the flag byte, a size field or a context (the declared sizes
+                // stay what the encoder wrote): everything from the data stage on -- CAT payload, or
+                // alphabet / frequencies / order-1 table header / states / payload; STRIPE: only the
+                // last byte (the sub-streams carry their own flag bytes and sizes)
+                let start = if f & 0x08 != 0 { enc.len() - 1 } else { body_start(&enc, true).unwrap_or(enc.len()) };
                 if start < enc.len() {
+                    let order1 = enc[0] & 0x29 == 0x01;
                     for _ in 0..(if thorough { 3 } else { 1 }) {
                         let mut bad = enc.clone();
-                        let pos = rng.range(start as u64, enc.len() as u64 - 1) as usize;
+                        let pos = if order1 && rng.below(8) == 0 { start } else { rng.range(start as u64, enc.len() as u64 - 1) as usize };
                         bad[pos] = match rng.below(4) {
                             0 => 0,
                             1 => 0xff,
                             2 => bad[pos] ^ (1 << rng.below(8)),
                             _ => rng.below(256) as u8,
                         };
+                        if order1 && pos == start {
+                            // the order-1 table header: any bit count, never the 'compressed' bit
+                            // (the sizes that follow it would be arbitrary)
+                            bad[pos] = (rng.below(16) as u8) << 4;
+                        }
                         w.push("nfd", vec![f.to_string(), n.clone(), hex(&bad), "-".into()]);
                     }
                 }
@@ -1145,6 +1274,108 @@ fn generate(rng: &mut Rng, tier: &str, w: &mut CaseWriter) {
         }
     }
 
+    // ---- entropy-compressed order-1 tables (accepted by the decoder, never written by the encoder):
+    // the table of a real order-1 stream replaced by its own order-0 (4 states) encoding
+    for f in [0x01u8, 0x05, 0x11] {
+        for _ in 0..(if thorough { 8 } else { 3 }) {
+            let shape = *rng.pick(&["skewed", "ascii", "qual", "two", "runs", "dominant"]);
+            let len = rng.range(40, 700) as usize;
+            let src = shaped(rng, shape, len);
+            let Outcome::Done(Ok(enc)) = guarded(AssertUnwindSafe(|| v::rans_nx16_encode(rans_nx16::Flags::from(f), &src))) else { continue };
+            if enc[0] & 0x21 != 0x01 {
+                continue;
+            }
+            let body_at = 1 + if f & 0x10 == 0 { u7_size(src.len() as u32) } else { 0 };
+            let Some(tlen) = o1_table_len(&enc[body_at + 1..]) else { continue };
+            let table = &enc[body_at + 1..body_at + 1 + tlen];
+            let Outcome::Done(Ok(cm)) = guarded(AssertUnwindSafe(|| v::rans_nx16_encode(rans_nx16::Flags::from(0x10), table))) else { continue };
+            if cm[0] != 0x10 {
+                continue;
+            }
+            let mut st = enc[..body_at].to_vec();
+            st.push(enc[body_at] | 0x01);
+            st.extend(w_u7(tlen as u32));
+            st.extend(w_u7((cm.len() - 1) as u32));
+            st.extend(&cm[1..]);
+            st.extend(&enc[body_at + 1 + tlen..]);
+            w.push("nfd", vec![f.to_string(), src.len().to_string(), hex(&st), hex(&src)]);
+            let cut = rng.range(body_at as u64 + 4, st.len() as u64 - 1) as usize;
+            w.push("nfd", vec![f.to_string(), src.len().to_string(), hex(&st[..cut]), "-".into()]);
+        }
+    }
+
+    // ---- adaptive arithmetic coder, order 0 (modelled): aae / aad for the flag bytes within NO_SIZE|CAT|PACK
+    {
+        let mut inputs: Vec<Vec<u8>> = vec![vec![], vec![0], vec![7], vec![255], vec![1, 2], vec![3, 3, 3], vec![0, 255], vec![9; 40], vec![255; 300], (0..=255u8).collect()];
+        for shape in SHAPES {
+            for _ in 0..(if thorough { 8 } else { 3 }) {
+                let len = gen_len(rng, if thorough { 6000 } else { 1500 });
+                inputs.push(shaped(rng, shape, len));
+            }
+        }
+        // long enough for several renormalisations of the model (total > 2^16 - 17 after ~4100 symbols)
+        inputs.push(shaped(rng, "skewed", 9000));
+        inputs.push(shaped(rng, "dominant", 13000));
+        inputs.push(vec![200; 5000]);
+        inputs.push((0..12000usize).map(|i| (i % 3) as u8).collect());
+        // runs of every length class of the base-4 run-length digits (0..2, 3..5, 6.., long)
+        for maxrun in [2u64, 4, 7, 12, 40, 300] {
+            let mut v = Vec::new();
+            let total = rng.range(30, 600) as usize;
+            while v.len() < total {
+                let sy = (rng.below(6) * 40) as u8;
+                let r = 1 + rng.below(maxrun) as usize;
+                v.extend(std::iter::repeat(sy).take(r));
+            }
+            inputs.push(v);
+        }
+        // few symbols: PACK applies
+        for nsym in [1usize, 2, 3, 4, 5, 16, 17] {
+            let n = rng.range(1, 400) as usize;
+            inputs.push((0..n).map(|_| (rng.below(nsym as u64) * 7) as u8).collect());
+        }
+        for (fi, &f) in all_subsets(&[0x01, 0x08, 0x10, 0x20, 0x40, 0x80]).iter().enumerate() {
+            for (ii, src) in inputs.iter().enumerate() {
+                if (f & 0x20 != 0 || f & 0x08 != 0) && (ii + fi) % 6 != 0 || f & 0x28 == 0 && (ii + fi) % 2 != 0 && !thorough {
+                    continue;
+                }
+                w.push("aae", vec![f.to_string(), hex(src)]);
+                if src.len() > 2000 {
+                    continue;
+                }
+                let Outcome::Done(Ok(enc)) = guarded(AssertUnwindSafe(|| v::aac_encode(aac::Flags::from(f), src))) else { continue };
+                let n = src.len().to_string();
+                w.push("aad", vec![f.to_string(), n.clone(), hex(&enc), hex(src)]);
+                if enc.len() > 2 {
+                    let cut = rng.range(1, enc.len() as u64 - 1) as usize;
+                    w.push("aad", vec![f.to_string(), n.clone(), hex(&enc[..cut]), "-".into()]);
+                }
+                // corrupted: any byte of the data stage (CAT payload, or symbol count and range-coder
+                // bytes); STRIPE: only the last byte, and only when it is a range-coder byte of the
+                // last sub-stream (the sub-streams carry their own flag bytes; EXT is not modelled)
+                let start = if f & 0x08 != 0 { if src.len() >= 8 { enc.len() - 1 } else { enc.len() } } else { body_start(&enc, false).unwrap_or(enc.len()) };
+                if start < enc.len() {
+                    for _ in 0..(if thorough { 3 } else { 2 }) {
+                        let mut bad = enc.clone();
+                        let pos = rng.range(start as u64, enc.len() as u64 - 1) as usize;
+                        bad[pos] = match rng.below(4) {
+                            0 => 0,
+                            1 => 0xff,
+                            2 => bad[pos] ^ (1 << rng.below(8)),
+                            _ => rng.below(256) as u8,
+                        };
+                        w.push("aad", vec![f.to_string(), n.clone(), hex(&bad), "-".into()]);
+                    }
+                }
+                if (ii + fi) % 3 == 0 {
+                    let mut more = enc.clone();
+                    more.extend(rng.bytes(3));
+                    w.push("aad", vec![f.to_string(), n.clone(), hex(&more), "-".into()]);
+                }
+            }
+        }
+    }
+
     // ---- fqzcomp
     for _ in 0..(25 * scale) {
         let shape = *rng.pick(&["qual", "qual", "skewed", "single", "two", "uniform", "runs"]);
@@ -1182,9 +1413,9 @@ fn generate(rng: &mut Rng, tier: &str, w: &mut CaseWriter) {
         w.push("big", vec!["r4".into(), "0".into(), shape.into(), "0".into(), "0".into()]);
     }
     for shape in ["zmaxnx16", "nx16under"] {
-        w.push("big", vec!["nfe".into(), "0".into(), shape.into(), "0".into(), "0".into()]);
+        w.push("big", vec!["nx16".into(), "0".into(), shape.into(), "0".into(), "0".into()]);
     }
-    w.push("big", vec!["nfe".into(), "0".into(), "f8".into(), "0".into(), "0".into()]);
+    w.push("big", vec!["nx16".into(), "0".into(), "f8".into(), "0".into(), "0".into()]);
     w.push("fqz", vec!["5,0,5".into(), hex(&[30u8; 10])]);
     w.push("fqz", vec!["4,4,0".into(), hex(&[30u8; 8])]);
     // ---- big inputs, built inside `run`
@@ -1213,6 +1444,8 @@ fn run(c: &Case) -> Obs {
         "nxe" => nxe_case(c.u(0) as u8, &c.b(1)),
         "nxd" | "nfd" => nxd_case(c),
         "nfe" => nfe_case(c.u(0) as u8, &c.b(1)),
+        "aae" => aae_case(c.u(0) as u8, &c.b(1)),
+        "aad" => aad_case(c),
         "fqz" => {
             let lens: Vec<usize> = if c.args[0] == "_" { vec![] } else { c.args[0].split(',').map(|x| x.parse().unwrap()).collect() };
             fqz_case(&lens, &c.b(1))
@@ -1226,7 +1459,6 @@ fn run(c: &Case) -> Obs {
             match c.args[0].as_str() {
                 "r4" => r4_case(p, &src, false),
                 "nx16" => nx16_case(p as u8, &src),
-                "nfe" => nfe_case(p as u8, &src),
                 "aac" => aac_case(p as u8, &src),
                 "fqz" => {
                     let mut lens = vec![p as usize; src.len() / p as usize];
